@@ -225,6 +225,17 @@ def run(chk, replay=None):
             else:
                 chk.violation('annotator violates the property: an identifier carried by a MathML element is handed out again by printModel(model, true) / assignAllIds()',
                               {'kind': 'oracle', 'engine': 'annot', 'lines': ['(annot %s (equivs ) (ops (printauto) (setmodel) (assignall)))' % E.sexp_model(pm)], 'why': pr[0][:300]}, True)
+    if not replay:
+        # the annotator probes of the bad-argument audit (harness/hx_badargs.cpp, shared with C09): foreign / null items are refused,
+        # a shared import source is one item, an index past the last unit is refused
+        hb = build_hx('hx_badargs', lib)
+        rb = subprocess.run([hb], capture_output=True, text=True, timeout=1200)
+        for ln in rb.stdout.split('\n'):
+            if '\t' in ln and ln.startswith('annotator'):
+                name, res = ln.split('\t')[:2]
+                chk.cov.setdefault('annotator_probes', []).append(name)
+                if res != 'ok':
+                    chk.violation('annotator violates the property: %s — %s' % (name, res), {'kind': 'oracle', 'engine': 'badargs', 'probe': name, 'result': res, 'how': 'harness/hx_badargs.cpp runs the probe of that name'}, True)
     _, impl, e1 = run_lines_parallel(hx, [], lines)
     mlines, opsl = [], []
     for l, x in zip(lines, impl):
